@@ -9,6 +9,22 @@ TB = ("Trusted base: go/types+go/ssa (x/tools v0.29.0) front end, the govc VC ge
       "assumed contracts of external libraries listed per run in the evidence file. ")
 
 CLAIMS = {
+ "C10": dict(
+   technique="contract-based deductive verification: contracts over a ghost trace of effectful calls on the real runner steps (go/ssa), SMT; structural single-writer obligation on the SSA call graph",
+   text=("Proof over the step algebra, for all step lists and all step behaviours: Runner.Run runs the steps in order up to and including the first failing one and returns exactly that step's error, nil iff all ran and returned nil; "
+         "StepAmalgamated runs every sub-step once and accepts iff all accept; StepVerboseSwitchable runs its parent exactly once when active (returning its verdict unchanged, Indent/EndIndent balanced) and not at all when inactive; "
+         "StepCodeGenerator calls Build exactly once, calls os.WriteFile at most once, only after a successful Build, with filepath.Clean(-o) and exactly Build's string, and succeeds iff the write succeeded; "
+         "findFiles returns cleaned paths in lexical order. Structural obligation: that os.WriteFile call is the only file-mutating call in the repository, so on any failure before it the -o path is untouched."),
+   note=("Not covered (evaluated/assumed, not proved): the composition root (which steps are wired in which order, that the generator is last), cobra's RunE closure that prints the numbered error list and maps err to exit status 1, os.WriteFile's own atomicity (A13), StepReadConfig.Run's read loop. "
+         "Each function's contract speaks about its own direct effectful calls; the end-to-end statement is the composition of these contracts given the wiring. " + TB),
+   design="DESIGN.md section 4 C10"),
+ "C16": dict(
+   technique="contract-based deductive verification: contracts over a ghost trace of effectful calls on the real switchable/amalgamated steps (go/ssa), SMT",
+   text=("Proof that an inactive StepVerboseSwitchable does not run its parent, returns nil and leaves input and output untouched, that an active one returns the parent's verdict unchanged, that Active(b) changes nothing but the flag, "
+         "that StepAmalgamated runs all rule steps regardless of each other's verdict and accepts iff every one accepts, that StepOutputValidationRule returns exactly its rule's verdict on an unmodified Output, "
+         "and (from C06) that the two switchable rules are ValidateParamsExist / ValidateServicesExist with exact accept-iff contracts. Hence deactivating a rule removes exactly that rule's diagnostics and nothing else."),
+   note=("Not covered (evaluated/assumed, not proved): that --ignore-missing-params / --ignore-missing-services are bound to the Active flags of exactly those two rule steps (cobra flag binding and the generated composition root in internal/gontainer), and byte-identity of the generated file. " + TB),
+   design="DESIGN.md section 4 C16"),
  "C14": dict(
    technique="contract-based deductive verification: contracts and a data-structure invariant on the real imports table over go/ssa, string/regex SMT",
    text=("Proof that decorateImport resolves a reference through the alias table on whole path segments only (the alias that applies is the first path segment; a lemma shows no other alias can match), "
